@@ -25,6 +25,7 @@ var registry = map[string]entry{
 	"C10": {"fault_enumeration", props.C10},
 	"C12": {"exploration", props.C12},
 	"C13": {"exploration", props.C13},
+	"C14": {"exploration", props.C14},
 	"C18": {"exploration", props.C18},
 	"C19": {"fault_enumeration", props.C19},
 	"C20": {"exploration", props.C20},
